@@ -593,6 +593,25 @@ def build(lin, cls, v):
             return -A
         if kind == "(A*B).H*(a*A)":
             return (A * B).H * (_cplx("a") * A)
+        B3 = G("B3", o, i)
+        if kind == "(a*A).H*(b*B3)":
+            return (_cplx("a") * A).H * (_cplx("b") * B3)
+        if kind == "(a*A).H*(a*A)":
+            return (_cplx("a") * A).H * (_cplx("a") * A)
+        if kind == "(a*A).H*b":
+            return (_cplx("a") * A).H * _cplx("b")
+    if cls == "DiagMixed":
+        # operands [n_j] -> [p_j, q_j]: only the stacked axes may differ between operands
+        k, iax, oax = v["k"], v["iaxis"], v["oaxis"]
+        common = _shape("c", 2)
+        ops = []
+        for j in range(k):
+            ish = [Sym(z3.Int("e%d" % j))]
+            osh = list(common)
+            osh[oax % 2] = Sym(z3.Int("g%d" % j))
+            _pos(*(ish + osh))
+            ops.append(G("A%d" % j, osh, ish))
+        return lin.Diag(ops, oaxis=oax, iaxis=iax)
     if cls == "FiniteDifference":
         return lin.FiniteDifference(_shape("n", r), axes=v.get("axes"))
     raise KeyError((cls, v))
@@ -686,8 +705,12 @@ def variants(tier):
         add(cls, k=2, axis=-2, rank=2)
         # axis=None on rank-2 operands (flattened stacking): the summation matcher cannot relate the flattened index to the
         # operands' multi-indices (engine limit) -> bounded native probe only, see NOT_DECIDED of C01/C03/C04
-    for kind in ("A*B", "a*A", "A*a", "A+B", "A-B", "-A", "(A*B).H*(a*A)"):
+    for kind in ("A*B", "a*A", "A*a", "A+B", "A-B", "-A", "(A*B).H*(a*A)", "(a*A).H*(b*B3)", "(a*A).H*(a*A)", "(a*A).H*b"):
         add("overload", kind=kind)
+    # Diag over operands whose input and output ranks differ, with different input / output stacking axes
+    for oax in (1, -1, 0):
+        add("DiagMixed", k=2, iaxis=0, oaxis=oax)
+    add("DiagMixed", k=2, iaxis=-1, oaxis=-2)
     add("FiniteDifference", rank=1)
     add("FiniteDifference", rank=2)
     add("FiniteDifference", rank=2, axes=(-1,))
